@@ -5,7 +5,7 @@ CONSTANTS
   Clients = {1}
   MaxAtt = 3
   MaxCuts = 1
-  MaxProxies = 1
+  MaxProxies = 0
   Dev_NoCleanup = TRUE
   Dev_RouterFirst = TRUE
   Dev_NoLease = TRUE
